@@ -146,6 +146,7 @@ func runStandard(t *testing.T, p *Prop, sc *world.Scenario, out *Outcome) {
 	if !sc.KeepFaults() {
 		w.KV.StopFaults() // "once faults stop": epilogue probes run against a healthy engine
 	}
+	w.TiKVScanFaultArmed = false // faults below the TiKV adapter are for the clients' requests, not for the harness' own dump
 	if p.Epilogue != nil {
 		p.Epilogue(c)
 	}
